@@ -24,7 +24,7 @@ func init() {
 			"distinct = (document, site, defect); non-trivial = site below the root or inside a fragment",
 		Technique:      "exhaustive single-defect injection at every site of bounded valid requests, executed on the real resolver against a reference executor",
 		Assumptions:    []string{"defective selections carry the alias dfx so their response key is unambiguous"},
-		QuickBudget:    150 * time.Second,
+		QuickBudget:    200 * time.Second,
 		ThoroughBudget: 20 * time.Minute,
 	})
 }
